@@ -8,7 +8,7 @@
 use crate::env::{Kind, Outcome, ScratchMode};
 use crate::mods::Be;
 use crate::ops::{self, Fam, OpCase, adapt, exec};
-use crate::with_backend;
+use pzv_be::with_backend;
 use dashu_int::IBig;
 use poulpy_hal::layouts::{VecZnx, ZnxView, ZnxViewMut};
 use proptest::prelude::*;
